@@ -88,6 +88,7 @@ func runC08(l *core.Ledger) {
 	// (blocking or polling) with a case on the call context's Done(): otherwise
 	// a steady supply of replies starves the context case
 	for _, rl := range findReplyLoops(l, r, "C08-B5") {
+		ctxCaseCompletes(l, rl, "C08-B5")
 		observes := func(n sx.Node) bool {
 			s, ok := n.Instr().(*ssa.Select)
 			if !ok {
